@@ -30,8 +30,10 @@ contract("C19.cache_lock_exit",
          requires=["self.cache_lock is not None and self.cache_lock.held"],
          raises={"ValueError": "True"},
          modifies=["heap:PLock.held"],
-         ghost={"sets": {"cache_locked": "False"}},
-         ensures={"C19.L1.released_on_exit": "not self.cache_lock.held"})
+         ghost={"sets": {"cache_locked": "False"}, "init": {"fs_remove_count": "0"}},
+         ensures={"C19.L1.released_on_exit": "not self.cache_lock.held",
+                  # flock discipline: the lock FILE stays - unlinking it lets a waiter lock the old inode while a newcomer locks a new file
+                  "C19.L1.lock_file_is_never_unlinked": "fs_remove_count == 0"})
 
 contract("C19.write_last_cached_time",
          file="hed/schema/hed_cache_lock.py", func="_write_last_cached_time",
